@@ -21,7 +21,7 @@ BASES = {"tiny": b"", "small": b"\x00\x01" * 3, "ffff": b"\xff\xff" * 40, "mixed
 def describe(tier):
     q = tier == "quick"
     return {
-        "rule": "F (plus the same sweep on frames carrying Ethernet padding or a 4-byte FCS trailer): for ipver x proto x parity x " + ("2" if q else "3") + " base payloads, a 16-bit payload word takes all 65536 values; "
+        "rule": "F (plus the same sweep on frames carrying Ethernet padding or a 4-byte FCS trailer, and on IPv6 packets with extension headers): for ipver x proto x parity x " + ("2" if q else "3") + " base payloads, a 16-bit payload word takes all 65536 values; "
                 "each packet is evaluated with its correct checksum (sender rule incl. UDP 0->0xffff) and with " + ("2" if q else "4") +
                 " wrong values that fail the receiver test; P: all 256 subsets of 8 designated packets corrupted (payload byte "
                 "flipped without fixing the checksum / checksum field changed). non-trivial: F - a packet whose folded sum needed "
@@ -48,6 +48,10 @@ def cases(tier, seed):
                 for b in bases:
                     for chunk in range(8):
                         yield {"layer": "F", "v6": v6, "proto": proto, "odd": odd, "base": b, "chunk": chunk, "wrong": 2 if q else 4}
+                if v6:
+                    # IPv6 extension headers (hop-by-hop + destination options) in front of the transport header
+                    for chunk in (range(0, 8, 4) if q else range(8)):
+                        yield {"layer": "F", "v6": v6, "proto": proto, "odd": odd, "base": "small", "chunk": chunk, "wrong": 1, "v6_ext": True}
                 if not odd or not q:
                     # frames with a link-layer trailer; the 'tiny' base keeps IPv4 frames below the 60-byte Ethernet minimum
                     for tr in ("pad", "fcs"):
@@ -79,7 +83,7 @@ def run_f(case):
     lo = case["chunk"] * 8192
     for w in range(lo, lo + 8192):
         payload = struct.pack("!H", w) + base + (b"\x5a" if odd else b"")
-        frame = net.build_frame(src, dst, proto, payload, seq=0x01020304, ack=0x0a0b0c0d)
+        frame = net.build_frame(src, dst, proto, payload, seq=0x01020304, ack=0x0a0b0c0d, v6_ext=bool(case.get("v6_ext")))
         # link-layer trailer: Ethernet padding of short frames / a captured frame check sequence (not part of the IP packet)
         trailer = case.get("trailer")
         if trailer == "pad":
